@@ -490,3 +490,94 @@ Example C16_example_full_table :
         [[CS "A"; CS "chr1"; CZ 0; CZ 280; CQ (Some (1 # 2)); CQ (Some 10%Q); CQ (Some 3%Q); CZ 3];
          [CS "B"; CS "chr1"; CZ 500; CZ 780; CQ (Some (1 # 2)); CQ (Some 10%Q); CQ (Some 3%Q); CZ 3]]).
 Proof. vm_compute. reflexivity. Qed.
+
+(* ---- loop ties (one iteration of each Python loop, translated from /repo on every run; LOOP_TIES_GUIDE) ------------- *)
+From CNV Require Import Gen.FnGenesByGene Gen.FnGenesGroup Gen.FnGenesBySegment Gen.FnGenesBreaks Gen.FnGenesWalk
+  Gen.FnGenesSquash Model.Reports Proofs.FnGenesByGene Proofs.FnGenesGroup Proofs.FnGenesBySegment Proofs.FnGenesBreaks
+  Proofs.FnGenesWalk Proofs.FnGenesSquash.
+
+(* reports.gene_metrics_by_gene, one iteration of `for row in group_by_genes(...)`: the row is yielded (once) exactly
+   when |log2| reaches the threshold -- NaN never does -- and the gene name is not empty *)
+Theorem C16_source_by_gene_step : forall threshold r (id : Z),
+  fn_by_gene_step id (r_log2 r) threshold (r_gene r)
+  = if reaches threshold (r_log2 r) && negb (String.eqb (r_gene r) "") then [id] else [].
+Proof. exact source_by_gene_step. Qed.
+
+(* ... and the generator run over group_by_genes' rows is the model's gene_metrics_by_gene *)
+Theorem C16_source_by_gene : forall threshold skip_low rows,
+  gene_metrics_by_gene threshold skip_low rows
+  = run_rows (fun r => fn_by_gene_step 0 (r_log2 r) threshold (r_gene r)) (group_by_genes skip_low rows).
+Proof. exact source_by_gene. Qed.
+
+(* reports.group_by_genes, one iteration of `for gene, rows in cnarr.by_gene()`: the skip rules and the stores into the
+   copy of the first row give the model's row of the group, field for field *)
+Theorem C16_source_group_step : forall skip_low gr,
+  group_rows_of skip_low gr = py_group_iter skip_low gr.
+Proof. exact source_group_step. Qed.
+
+Theorem C16_source_group_by_genes : forall skip_low rows,
+  group_by_genes skip_low rows = flat_map (py_group_iter skip_low) (by_gene IGNORE_GENE_NAMES rows).
+Proof. exact source_group_by_genes. Qed.
+
+(* the stores for every combination of present weight / depth columns (the model's tables carry both) *)
+Theorem C16_source_group_columns : forall g sm id fe fg fl fp fw fd le n hw ws hd_ wd md,
+  let '(e, gn, l2, p, w, d, _) :=
+    fn_group_step true g false sm false id fe fg fl fp fw fd le n hw ws hd_ wd md in
+  e = le /\ gn = g /\ l2 = sm /\ p = n /\
+  w = (if hw then ws else fw) /\
+  d = (if hd_ then (if hw then wd else md) else fd).
+Proof. exact source_group_columns. Qed.
+
+(* reports.gene_metrics_by_segment: the threshold is tested on the SEGMENT's log2 (one iteration of the outer loop) ... *)
+Theorem C16_source_by_segment_step : forall threshold s (inner : list Z),
+  fn_by_segment_step (Some (b_log2 s)) threshold inner
+  = if Qle_bool threshold (Qabs (b_log2 s)) then inner else [].
+Proof. exact source_by_segment_step. Qed.
+
+(* ... the inner loop's stores are with_segment_x (log2 := the segment's; segment_weight / segment_probes when the
+   segment has them) on every row fresh from group_by_genes ... *)
+Theorem C16_source_by_segment_row : forall hw hp s r,
+  r_segw r = None -> r_segp r = None -> py_override hw hp s r = with_segment_x hw hp s r.
+Proof. exact source_by_segment_row_x. Qed.
+
+(* ... and the two loops run over by_ranges' pairs are the model's gene_metrics_by_segment *)
+Theorem C16_source_by_segment : forall threshold skip_low rows segs,
+  gene_metrics_by_segment threshold skip_low rows segs
+  = flat_map (py_by_segment_iter threshold skip_low) (by_ranges rows segs).
+Proof. exact source_by_segment. Qed.
+
+(* reports.get_breakpoints, one iteration of the inner loop = the model's break_at (gstarts[0] < curr_end < gend, both
+   probe counts >= min_probes, the appended tuple) ... *)
+Theorem C16_source_break_at : forall min_probes cur next iv,
+  break_at min_probes cur next iv = map brow_of (py_break_inner min_probes cur next iv).
+Proof. exact source_break_at. Qed.
+
+(* ... and the two loops over consecutive segment pairs = breakpoints_raw *)
+Theorem C16_source_breakpoints : forall ivs min_probes segs,
+  breakpoints_raw ivs min_probes segs = py_breakpoints ivs min_probes segs.
+Proof. exact source_breakpoints. Qed.
+
+(* cnary.by_gene, one iteration of `for gene, gene_idx in gene_map.items()` (prev_idx carried; the yielded tables are
+   positional end-exclusive slices) folded over the gene map, the telomere tail after it = the model's by_gene_chrom *)
+Theorem C16_source_walk_step : forall cnt, (forall e, 0 < cnt e) -> forall ignore (prev : nat) g f l,
+  step_on cnt ignore (Z.of_nat prev) (g, f, l)
+  = if mem_string g ignore then (Z.of_nat prev, [])
+    else (Z.of_nat (S l),
+          (if Nat.ltb prev f then [(ANTITARGET_NAME, Z.of_nat prev, Z.of_nat f)] else [])
+          ++ [(g, Z.of_nat f, Z.of_nat (S l))]).
+Proof. exact source_walk_step. Qed.
+
+Theorem C16_source_walk : forall cnt ign rows, (forall e, 0 < cnt e) ->
+  by_gene_chrom ign rows = py_walk cnt ign rows 0 (gene_map rows).
+Proof. exact source_by_gene_chrom. Qed.
+
+(* cnary.squash_genes, one iteration of `for name, subarr in self.by_gene(ignore)`: nothing for an empty group, the
+   group's own rows for an Antitarget group unless squash_antitarget, else squash_rows' one row *)
+Theorem C16_source_squash_step : forall squash_antitarget gr,
+  squash_group squash_antitarget gr = py_squash_iter squash_antitarget gr.
+Proof. exact source_squash_step. Qed.
+
+Theorem C16_source_squash_genes : forall ignore squash_antitarget rows,
+  squash_genes ignore squash_antitarget rows
+  = flat_map (py_squash_iter squash_antitarget) (by_gene ignore rows).
+Proof. exact source_squash_genes. Qed.
